@@ -359,3 +359,27 @@ func VerifHarness_C07_FallbackPunct() {
 	}
 	verifReach("fallback")
 }
+
+// queries without any index term (one letter, punctuation) and the limit left unset
+func VerifHarness_C07_FallbackNoTerms() {
+	mk := func(cmd, desc string) Command {
+		c := Command{Command: cmd, Description: desc}
+		vFill(&c)
+		return c
+	}
+	db := &Database{Commands: []Command{mk("ls -la", "list"), mk("x?y", "mm"), mk("nn", "oo")}}
+	db.BuildUniversalIndex()
+	q := []string{"l", "x", "?", "-"}[verifIntRange("query", 0, 3)]
+	limit := []int{0, 2}[verifIntRange("limit", 0, 1)]
+	o := SearchOptions{Limit: limit, UseFuzzy: true, FuzzyThreshold: 0, UseNLP: verifBool("nlp"), AllPlatforms: true}
+	if len(db.SearchUniversal(q, SearchOptions{Limit: limit, AllPlatforms: true, UseNLP: o.UseNLP})) > 0 {
+		return
+	}
+	res := db.SearchUniversal(q, o)
+	for _, r := range res {
+		verifAssert(c07Subseq(q, r.Command.Command+" "+r.Command.Description), "C07: every fallback result contains the query's characters in order")
+	}
+	verifAssert(len(res) > 0, "C07: a query occurring in order in some command is never left without a result when no threshold is set")
+	verifReach("fallback")
+	verifReach("fallback-nonempty")
+}
